@@ -223,6 +223,65 @@ def h_par_dir(ctx):
     ctx.vc("latitude' == atan2(cos(longitude') Z, N) up to whole half turns (same tangent)", or_(k2 == 0, k2 == 1, k2 == -1))
 
 
+def _pc_cuts():
+    def grab(which):
+        def cut(it, frame):
+            it.info.setdefault("pc", {})[which] = Num.of(frame.locals[which])
+            return True
+        return cut
+    F = "Earth.parallax_correction"
+    return {(F, k, 1): grab(k) for k in ("sin_pi", "rho_sinphi", "rho_cosphi")}
+
+
+@P.harness("parallax_correction/direction", contracts=lambda: {ANGLE + ".reduce_deg": contract_reduce_deg,
+                                                               ANGLE + ".dms2deg": contract_dms2deg},
+           cuts=_pc_cuts, axioms=("pi", "inverse-range", "trig-range"), functions=[EARTH + ".parallax_correction"], crosscheck=0,
+           timeout=60, branch_timeout_ms=300)
+def h_pc_dir(ctx):
+    """in the frame whose x axis lies in the body's geocentric meridian the topocentric vector is T = (cos dec - rho cos phi' sin pi
+    cos H, -rho cos phi' sin pi sin H, sin dec - rho sin phi' sin pi) (Meeus 40.2/40.3): the right ascension changes by
+    atan2(T_y, T_x) and the returned declination is atan2(T_z cos(d_alpha), T_x) up to whole half turns, inside [-90, 90] --
+    i.e. atan(T_z cos(d_alpha) / T_x), the declination of T also when the body is seen beyond the pole (T_x < 0)"""
+    from pyvc.api import atan2_
+    if ctx.native:
+        return
+
+    def ang(name, lo, hi):
+        v = ctx.real(name, lo, hi)
+        o = ctx.obj("Angle")
+        ctx.setfield(o, "_deg", v)
+        ctx.setfield(o, "_tol", TOL)
+        return o, v
+    ra, rav = ang("ra", 0, 360)
+    dec, decv = ang("dec", -90, 90)
+    olat, _ = ang("obs_lat", -90, 90)
+    ha, hav = ang("hour_angle", 0, 360)
+    dist = ctx.real("dist", Fraction(1, 1000), 1000)
+    try:
+        out = ctx.call(EARTH + ".parallax_correction", ra, dec, olat, dist, ha)
+    except PyRaise as ex:
+        return
+    pc = ctx.it.info["pc"]
+    sp, rs, rc = pc["sin_pi"], pc["rho_sinphi"], pc["rho_cosphi"]
+    d, H = radians_(decv), radians_(hav)
+    Tx, Ty, Tz = cos_(d) - rc * sp * cos_(H), -rc * sp * sin_(H), sin_(d) - rs * sp
+    (A1, N1), (A2, N2) = ctx.uf_terms("atan2")[:2]
+    ctx.identity("right-ascension arctangent: numerator == T_y", A1, Ty)
+    ctx.identity("right-ascension arctangent: denominator == T_x", N1, Tx)
+    ctx.identity("declination arctangent: same denominator", N2, N1)
+    pi = pi_()
+    da = atan2_(A1, N1) * 180 / pi                       # degrees
+    tra, tdec = ctx.field(out[0], "_deg"), ctx.field(out[1], "_deg")
+    k1 = (tra - rav - da) / 360
+    ctx.vc("right ascension' == right ascension + atan2(T_y, T_x) (mod 360)", k1 == floor_(k1))
+    # the code takes the cosine of the reduced Angle made of that arctangent: the same angle up to whole turns
+    ctx.identity("declination arctangent: numerator == T_z cos(d_alpha)", A2, Tz * cos_(radians_(da)))
+    T2 = atan2_(A2, N2) * 180 / pi
+    k2 = (tdec - T2) / 180
+    ctx.vc("declination' == atan2(T_z cos(d_alpha), T_x) up to whole half turns (same tangent)", or_(k2 == 0, k2 == 1, k2 == -1))
+    ctx.vc("declination' in [-90, 90]", and_(tdec >= -90, tdec <= 90))
+
+
 # ---- bounded
 @P.bounded_check("float/ellipsoid-distance-parallax", grid="latitudes -90..90 incl. poles/equator, heights -500..9000 m, both "
                  "built-in ellipsoids; point pairs incl. coincident, antipodal, same-meridian, equatorial; parallax for "
@@ -299,6 +358,9 @@ def b_earth(rng, tier):
         dist = 10 ** rng.uniform(-3, 3)
         hp = math.degrees(math.asin(min(1.0, math.sin(math.radians(8.794 / 3600.0)) / dist)))
         lon, lat = rng.uniform(0, 360), rng.uniform(-85, 85)
+        if i % 3 == 0:
+            # next to the pole of the coordinates, where a close body is seen on the far side of the pole
+            lat = rng.choice((-1, 1)) * (90.0 - 10 ** rng.uniform(-3, 0.7))
         olat, obl, sid = rng.uniform(-90, 90), 23.44, rng.uniform(0, 360)
         ok, det = True, None
         try:
@@ -307,6 +369,8 @@ def b_earth(rng, tier):
             if abs(tb()) > 90 or s1 > 1.003 * hp + 1e-9:
                 ok, det = False, ("ecliptical", tl(), tb(), s1, hp)
             ra, dec, ha = rng.uniform(0, 360), rng.uniform(-85, 85), rng.uniform(0, 360)
+            if i % 3 == 1:
+                dec = rng.choice((-1, 1)) * (90.0 - 10 ** rng.uniform(-3, 0.7))
             tr, td = Earth.parallax_correction(Angle(ra), Angle(dec), Angle(olat), dist, Angle(ha))
             s2 = sep(ra, dec, tr(), td())
             if abs(td()) > 90 or s2 > 1.003 * hp + 1e-9:
